@@ -127,7 +127,7 @@ func c01Pred(c *core.Ctx, r *core.Reporter) {
 			return
 		}
 		f := core.FieldOf(st.Addr)
-		if f == nil || f.Name() != "skipPredicate" {
+		if f == nil || core.N(f) != "skipPredicate" {
 			return
 		}
 		n++
@@ -162,7 +162,7 @@ func c01Pred(c *core.Ctx, r *core.Reporter) {
 	// merged occurrences: append to an existing plan's fieldASTs must record the occurrence's predicate
 	merged := 0
 	for _, w := range core.WritesIn(fn) {
-		if w.Field == nil || w.Field.Name() != "fieldASTs" || w.Fresh {
+		if w.Field == nil || core.N(w.Field) != "fieldASTs" || w.Fresh {
 			continue
 		}
 		merged++
@@ -170,7 +170,7 @@ func c01Pred(c *core.Ctx, r *core.Reporter) {
 		accounted := false
 		for _, in := range blk.Instrs {
 			if st, ok := in.(*ssa.Store); ok {
-				if f := core.FieldOf(st.Addr); f != nil && f.Name() != "fieldASTs" {
+				if f := core.FieldOf(st.Addr); f != nil && core.N(f) != "fieldASTs" {
 					for _, k := range cases {
 						if usesValue(st.Val, k.pred, 4) && usesValue(st.Val, parentPred, 4) {
 							accounted = true
@@ -328,7 +328,7 @@ func c01Collect(c *core.Ctx, r *core.Reporter) {
 				switch x := n.(type) {
 				case *ast.CallExpr:
 					if f := core.CalleeObj(info, x); f != nil {
-						if corr, ok := gateCorr[f.Name()]; ok {
+						if corr, ok := gateCorr[core.N(f)]; ok {
 							g[corr] = true
 						}
 					}
@@ -377,7 +377,7 @@ func c01Collect(c *core.Ctx, r *core.Reporter) {
 			switch x := n.(type) {
 			case *ast.CallExpr:
 				if f := core.CalleeObj(info, x); f != nil {
-					switch f.Name() {
+					switch core.N(f) {
 					case "typeFromAST":
 						a["typeFromAST"]++
 					case "IsPossibleType":
